@@ -18,6 +18,7 @@ Clauses ==
  \cup (IF Cardinality({ C.obs[s].t1.shaorder : s \in S }) > 1 THEN {"C16:table-object-order-differs-across-hash-seeds"} ELSE {})
  \cup (IF Cardinality({ <<C.obs[s].t1.sr, C.obs[s].t1.rr>> : s \in S }) > 1 THEN {"C16:conflict-report-differs-across-hash-seeds"} ELSE {})
  \cup (IF Cardinality({ C.obs[s].forests : s \in S }) > 1 THEN {"C16:forest-index-order-differs-across-hash-seeds"} ELSE {})
+ \cup (IF \E s \in S : C.obs[s].forests # C.obs[s].forests2 THEN {"C16:second-construction-or-cached-table-changes-forest-order"} ELSE {})
  \cup (IF Cardinality({ C.obs[s].err : s \in S }) > 1 THEN {"C16:construction-outcome-differs-across-hash-seeds"} ELSE {})
 Init == cid \in DOMAIN Cases /\ phase = 0
 Next == phase = 0 /\ phase' = 1 /\ UNCHANGED cid
